@@ -311,7 +311,9 @@ def check_region(ctx, reg, model, rc, tags, rng, origins=None, n_single=150):
         ctx.violate("get_cartesian raised", rc, observed=repr(cart), tags=dict(tags, api="get_cartesian"))
     ks = rng.integers(0, reg.num_nodes, min(20, reg.num_nodes))
     ok, polys, tb = ctx.call(reg.get_location_of, ks.tolist())
-    if ok and any(tuple(p.origin) != tuple(reg.origins()[k]) for p, k in zip(polys, ks)):
+    if not ok:
+        ctx.violate("get_location_of raised", rc, observed=repr(polys), tb=tb, tags=dict(tags, api="get_location_of"))
+    elif any(tuple(p.origin) != tuple(reg.origins()[k]) for p, k in zip(polys, ks)):
         ctx.violate("get_location_of returns a polygon that is not the indexed cell", rc, tags=dict(tags, api="get_location_of"))
     nt = int((near | masked).sum())
     kk = numpy.nonzero(near)[0][:4]
